@@ -4,14 +4,17 @@
     parse_ref_pushes).
 
     Partial in exactly one respect: what the remote does with one
-    `--force-with-lease=<ref>:<expected> <new>:<ref>` request is Git's code, not jj's. It is
-    the oracle [srv cur expected new = (accepted?, value afterwards)], constrained only by
-    the hypotheses written out in each theorem ([srv_cas]: a ref changes only if its current
-    value is the expected one, then to the requested value, and this is reported as accepted;
-    [srv_accept_only]: accepted only if the lease matched or the ref already had the new
-    value; [srv_accepted]: accepted means the ref now has the new value).  [git_srv] (the
-    behaviour of git 2.39 observed by the correspondence runs against a real bare remote)
-    satisfies all three ([C45_git_contract]).  Everything else — which refs are sent, with
+    `--force-with-lease=<ref>:<expected> <new>:<ref>` request is Git's code (and the remote's
+    hooks), not jj's. It is the oracle [srv name cur expected new = (answer, value
+    afterwards)] with three answers — Accepted, LeaseRejected ("stale info"), RemoteRejected
+    (the remote refused, e.g. an update hook) — constrained only by the hypotheses written
+    out in each theorem ([srv_cas]: a ref changes only if its current value is the expected
+    one, then to the requested value, and this is reported as Accepted — so both kinds of
+    rejection leave the ref alone; [srv_accept_only]: Accepted only if the lease matched or
+    the ref already had the new value; [srv_accepted]: Accepted means the ref now has the new
+    value).  [git_srv deny] (the behaviour of git 2.39 observed by the correspondence runs
+    against a real bare remote whose update hook refuses the names in [deny]) satisfies all
+    of them ([C45_git_contract]).  Everything else — which refs are sent, with
     which lease, how the answers are read, and what is then recorded in the view — is jj's
     logic and is proved for every view, every remote state, every set of considered
     bookmarks, and so after every schedule of external updates, fetches, edits and pushes. *)
@@ -19,9 +22,10 @@ From Verif Require Import Base.Prelude Gen.Tables Model.Merge Model.C34 Model.C4
 Local Open Scope N_scope.
 
 Section Statements.
-  Context (srv : N -> N -> N -> bool * N).
-  Hypothesis srv_cas : forall cur e v,
-    snd (srv cur e v) <> cur -> cur = e /\ snd (srv cur e v) = v /\ fst (srv cur e v) = true.
+  Context (srv : N -> N -> N -> N -> answer * N).
+  Hypothesis srv_cas : forall n cur e v,
+    snd (srv n cur e v) <> cur ->
+    cur = e /\ snd (srv n cur e v) = v /\ fst (srv n cur e v) = Accepted.
 
   (** A remote ref is created, moved or deleted by a push only if its current value on the
       remote equals the position jj last recorded for it (the tracked remote-tracking
@@ -36,10 +40,10 @@ Section Statements.
     /\ In n (q_pushed q) /\ In n names.
   Proof. exact (push_cas srv srv_cas). Qed.
 
-  (** A ref that was not accepted (rejected, or not part of the push) keeps its value on the
-      remote, its remote-tracking bookmark (target and tracking state), its recorded Git ref
-      and its ref in the backing repository; no push ever changes a local bookmark; and a
-      rejected ref is never also reported as pushed. *)
+  (** A ref that was not accepted (lease-rejected, refused by the remote, or not part of the
+      push) keeps its value on the remote, its remote-tracking bookmark (target and tracking
+      state), its recorded Git ref and its ref in the backing repository; no push ever
+      changes a local bookmark; and a ref rejected in either way is never also pushed. *)
   Theorem C45_rejected_untouched : forall (v : jview) (remote backing : gmap) (names : list N) (n : N),
     NoDup names ->
     let q := push srv v remote backing names in
@@ -49,10 +53,11 @@ Section Statements.
           /\ rget (j_remote (q_view q)) n = rget (j_remote v) n
           /\ get (j_grefs (q_view q)) n = get (j_grefs v) n
           /\ gget (q_backing q) n = gget backing n)
-    /\ (In n (q_rejected q) -> ~ In n (q_pushed q)).
+    /\ (In n (q_rejected q) \/ In n (q_remote_rejected q) -> ~ In n (q_pushed q)).
   Proof. exact (rejected_untouched srv srv_cas). Qed.
 
-  Hypothesis srv_accept_only : forall cur e v, fst (srv cur e v) = true -> cur = e \/ cur = v.
+  Hypothesis srv_accept_only : forall n cur e v,
+    fst (srv n cur e v) = Accepted -> cur = e \/ cur = v.
 
   (** If the remote's value differs from jj's record (somebody else updated it since jj last
       saw it — at any time, e.g. between jj's fetch and push) and is not already the value jj
@@ -78,16 +83,17 @@ Section Statements.
     let w := run_world srv anc auto steps1 w0 in
     gget (w_remote (step_world srv anc auto w s)) n <> gget (w_remote w) n ->
     (exists c, s = Ext n c)
-    \/ (exists ns pre post pushed rejected unexported,
-          s = Push ns pre post pushed rejected unexported /\ In n ns
+    \/ (exists ns pre post pushed rejected rrejected unexported,
+          s = Push ns pre post pushed rejected rrejected unexported /\ In n ns
           /\ resolved (gget (w_remote w) n) = tracked_target (rget (j_remote (w_view w)) n)
           /\ resolved (gget (w_remote (step_world srv anc auto w s)) n) = get (j_local (w_view w)) n).
   Proof. intros anc auto. exact (schedule_remote_changes_attributed srv anc auto srv_cas). Qed.
 End Statements.
 
 Section Recorded.
-  Context (srv : N -> N -> N -> bool * N).
-  Hypothesis srv_accepted : forall cur e v, fst (srv cur e v) = true -> snd (srv cur e v) = v.
+  Context (srv : N -> N -> N -> N -> answer * N).
+  Hypothesis srv_accepted : forall n cur e v,
+    fst (srv n cur e v) = Accepted -> snd (srv n cur e v) = v.
 
   (** Accepted refs, and only those (see [C45_rejected_untouched]), are recorded: afterwards
       jj's record, the recorded Git ref and the backing repository's ref all equal the
@@ -105,17 +111,17 @@ Section Recorded.
 End Recorded.
 
 Section NoSpuriousRejection.
-  Context (anc : N -> N -> bool) (auto : bool) (srv : N -> N -> N -> bool * N).
+  Context (anc : N -> N -> bool) (auto : bool) (srv : N -> N -> N -> N -> answer * N).
 
   (** After a fetch the target of every remote-tracking bookmark is the remote's value. *)
   Theorem C45_fetch_records_remote : forall (v : jview) (remote : gmap) (n : N),
     r_target (rget (j_remote (fst (fetch anc auto v remote))) n) = resolved (gget remote n).
   Proof. exact (fetch_records_remote anc auto). Qed.
 
-  Hypothesis srv_complete : forall cur v, fst (srv cur cur v) = true.
+  Hypothesis srv_complete : forall n cur v, fst (srv n cur cur v) <> LeaseRejected.
 
   (** The lease never rejects without cause: if jj's records equal the remote (as after a
-      fetch with no external update since), a push rejects nothing. *)
+      fetch with no external update since), a push has no lease rejection. *)
   Theorem C45_no_spurious_rejection : forall (v : jview) (remote backing : gmap) (names : list N),
     NoDup names ->
     (forall n, r_target (rget (j_remote v) n) = resolved (gget remote n)) ->
@@ -124,11 +130,12 @@ Section NoSpuriousRejection.
 End NoSpuriousRejection.
 
 (** The observed behaviour of git satisfies the assumed contract. *)
-Theorem C45_git_contract : forall cur e v,
-  (snd (git_srv cur e v) <> cur ->
-     cur = e /\ snd (git_srv cur e v) = v /\ fst (git_srv cur e v) = true)
-  /\ (fst (git_srv cur e v) = true -> cur = e \/ cur = v)
-  /\ (fst (git_srv cur e v) = true -> snd (git_srv cur e v) = v).
+Theorem C45_git_contract : forall deny n cur e v,
+  (snd (git_srv deny n cur e v) <> cur ->
+     cur = e /\ snd (git_srv deny n cur e v) = v /\ fst (git_srv deny n cur e v) = Accepted)
+  /\ (fst (git_srv deny n cur e v) = Accepted -> cur = e \/ cur = v)
+  /\ (fst (git_srv deny n cur e v) = Accepted -> snd (git_srv deny n cur e v) = v)
+  /\ fst (git_srv deny n cur cur v) <> LeaseRejected.
 Proof. exact git_contract. Qed.
 
 (** Meaning of the checker run on the states observed around every real push, and the model's
@@ -137,19 +144,20 @@ Theorem C45_checker_meaning : forall ns pre post pushed rejected n,
   push_name_ok ns pre post pushed rejected n = true <-> PushOk ns pre post pushed rejected n.
 Proof. exact push_name_ok_spec. Qed.
 
-Theorem C45_model_passes_checker : forall (v : jview) (remote backing : gmap) (ns : list N) (n : N),
+Theorem C45_model_passes_checker :
+  forall (deny : list N) (v : jview) (remote backing : gmap) (ns : list N) (n : N),
   NoDup ns ->
-  let q := push git_srv v remote backing ns in
+  let q := push (git_srv deny) v remote backing ns in
   PushOk ns (psnap_of (mk_world v remote backing))
             (psnap_of (mk_world (q_view q) (q_remote q) (q_backing q)))
-            (q_pushed q) (q_rejected q) n.
+            (q_pushed q) (q_rejected q ++ q_remote_rejected q) n.
 Proof. exact model_push_ok. Qed.
 
 (** Whenever the observed states agree with the model along a schedule (the correspondence
     check), the checker accepts every observed push. *)
 Theorem C45_agreement_implies_property : forall (c : case),
   c_flags_ok c = true ->
-  replay (ancb (c_graph c)) (c_auto_track c) (c_names c) (c_steps c) empty_world = true ->
+  replay (ancb (c_graph c)) (c_auto_track c) (c_denied c) (c_names c) (c_steps c) empty_world = true ->
   okb c = true.
 Proof. exact corr_implies_okb. Qed.
 
@@ -159,26 +167,33 @@ Proof. exact corr_implies_okb. Qed.
 Example C45_source_anchors :
   (Tables.C45_LEASE_ARG, Tables.C45_LEASE_FORMAT, Tables.C45_REJECT_FLAG,
    Tables.C45_NOT_FORCED_REFSPEC) = (1, 1, 1, 1)
+  (* "[remote rejected]" answers are filed separately, and push_refs records exactly the
+     requests whose ref is in GitPushStats::pushed (bookmarks and tags: two filters) *)
+  /\ (Tables.C45_REMOTE_REJECTED_PARSE, Tables.C45_RECORD_ONLY_PUSHED) = (1, 2)
   /\ Tables.C45_PUSHED_FLAGS = "b""+"" | b""-"" | b""*"" | b""="" | b"" """%string.
-Proof. split; reflexivity. Qed.
+Proof. repeat split; reflexivity. Qed.
 
 Check C45_cas.
 Check C45_rejected_untouched.
 
-(** Non-vacuity: jj recorded b1@origin = 2 and b2@origin = 2; meanwhile somebody moved b1 to
-    4 on the remote. jj pushes b1 -> 3 (stale: rejected, nothing changes), b2 -> 3 (lease
-    matches: accepted and recorded) and the new b3 -> 3 (created). *)
+(** Non-vacuity: jj recorded b1@origin = b2@origin = b4@origin = 2; meanwhile somebody moved
+    b1 to 4 on the remote, and the remote's hook refuses name 4. jj pushes b1 -> 3 (stale:
+    lease-rejected), b2 -> 3 (accepted and recorded), the new b3 -> 3 (created) and b4 -> 3
+    (refused by the remote: nothing changes, nothing is recorded). *)
 Example C45_nonvacuous :
-  let v := mk_jview [(1, [3]); (2, [3]); (3, [3])]
-                    [(1, mk_rref [2] true); (2, mk_rref [2] true)]
-                    [(1, [2]); (2, [2])] in
-  let remote : gmap := [(1, 4); (2, 2)] in
-  let q := push git_srv v remote [(1, 2); (2, 2)] [1; 2; 3] in
-  q_pushed q = [2; 3] /\ q_rejected q = [1]
+  let v := mk_jview [(1, [3]); (2, [3]); (3, [3]); (4, [3])]
+                    [(1, mk_rref [2] true); (2, mk_rref [2] true); (4, mk_rref [2] true)]
+                    [(1, [2]); (2, [2]); (4, [2])] in
+  let remote : gmap := [(1, 4); (2, 2); (4, 2)] in
+  let q := push (git_srv [4]) v remote [(1, 2); (2, 2); (4, 2)] [1; 2; 3; 4] in
+  q_pushed q = [2; 3] /\ q_rejected q = [1] /\ q_remote_rejected q = [4]
   /\ gget (q_remote q) 1 = 4 /\ gget (q_remote q) 2 = 3 /\ gget (q_remote q) 3 = 3
+  /\ gget (q_remote q) 4 = 2
   /\ rget (j_remote (q_view q)) 1 = mk_rref [2] true
   /\ rget (j_remote (q_view q)) 2 = mk_rref [3] true
   /\ rget (j_remote (q_view q)) 3 = mk_rref [3] true
+  /\ rget (j_remote (q_view q)) 4 = mk_rref [2] true
+  /\ get (j_grefs (q_view q)) 4 = [2] /\ gget (q_backing q) 4 = 2
   /\ j_local (q_view q) = j_local v /\ q_unexported q = [].
 Proof. vm_compute. repeat split. Qed.
 
